@@ -351,8 +351,9 @@ func (r *Rtmp2RtspRemuxer) getAudioPacker() *rtprtcp.RtpPacker {
 			pp := rtprtcp.NewRtpPackerPayloadPcm()
 			r.audioPacker = rtprtcp.NewRtpPacker(pp, r.audioSampleRate, r.audioSsrc)
 		case base.AvPacketPtOpus:
+			// opus的rtp时钟固定为48000(RFC 7587)，和sdp中的描述一致，不受metadata中audiosamplerate的影响
 			pp := rtprtcp.NewRtpPackerPayloadOpus()
-			r.audioPacker = rtprtcp.NewRtpPacker(pp, r.audioSampleRate, r.audioSsrc)
+			r.audioPacker = rtprtcp.NewRtpPacker(pp, opusDefaultSampleRate, r.audioSsrc)
 		case base.AvPacketPtAac:
 			if r.asc == nil {
 				return nil
